@@ -2,7 +2,7 @@
 
 use crate::choices::Tape;
 use crate::gen;
-use crate::props::PropDef;
+use crate::props::{Mode, PropDef};
 use crate::scenario::Scenario;
 use crate::shrink;
 use crate::sim::{self, RunOpts};
@@ -103,7 +103,74 @@ pub struct CaseResult {
     pub evs: Vec<Ev>,
 }
 
+/// Reference build (default features) running as a child process: answers canonical-trace
+/// queries for the C18 differential.
+pub struct RefServer {
+    child: std::process::Child,
+    stdin: std::process::ChildStdin,
+    stdout: std::io::BufReader<std::process::ChildStdout>,
+}
+
+static REF: std::sync::Mutex<Option<RefServer>> = std::sync::Mutex::new(None);
+
+pub fn start_ref(bin: &str) -> std::io::Result<()> {
+    use std::process::{Command, Stdio};
+    let mut child = Command::new(bin).arg("serve").stdin(Stdio::piped()).stdout(Stdio::piped()).stderr(Stdio::null()).spawn()?;
+    let stdin = child.stdin.take().unwrap();
+    let stdout = std::io::BufReader::new(child.stdout.take().unwrap());
+    *REF.lock().unwrap() = Some(RefServer { child, stdin, stdout });
+    Ok(())
+}
+
+pub fn stop_ref() {
+    if let Some(mut r) = REF.lock().unwrap().take() {
+        drop(r.stdin);
+        let _ = r.child.kill();
+        let _ = r.child.wait();
+    }
+}
+
+/// -> (has logical ask cycle, canonical lines) as computed by the reference build
+pub fn ref_canon(sc: &Scenario) -> Option<(bool, Vec<String>)> {
+    use std::io::{BufRead, Write};
+    let mut g = REF.lock().unwrap();
+    let r = g.as_mut()?;
+    writeln!(r.stdin, "{}", sc.to_json()).ok()?;
+    r.stdin.flush().ok()?;
+    let mut line = String::new();
+    r.stdout.read_line(&mut line).ok()?;
+    let v: serde_json::Value = serde_json::from_str(line.trim()).ok()?;
+    let cycle = v.get("cycle")?.as_bool()?;
+    let lines = v.get("lines")?.as_array()?.iter().map(|x| x.as_str().unwrap_or("").to_string()).collect();
+    Some((cycle, lines))
+}
+
+/// the server side: one scenario JSON per input line, one JSON answer per output line
+pub fn serve() {
+    use std::io::{BufRead, Write};
+    let stdin = std::io::stdin();
+    let stdout = std::io::stdout();
+    for line in stdin.lock().lines() {
+        let Ok(line) = line else { break };
+        let Ok(sc) = serde_json::from_str::<Scenario>(&line) else {
+            let _ = writeln!(stdout.lock(), "{{}}");
+            continue;
+        };
+        let out = sim::run_sim(&sc, RunOpts::default());
+        let v = View::new(&sc, &out.evs);
+        let cycle = crate::monitors2::has_logical_cycle(&v);
+        let lines = crate::monitors2::canonical(&v, false);
+        let _ = writeln!(stdout.lock(), "{}", serde_json::json!({"cycle": cycle, "lines": lines}));
+        let _ = stdout.lock().flush();
+    }
+}
+
 pub fn run_case(def: &PropDef, sc: &Scenario) -> CaseResult {
+    match def.mode {
+        Mode::Single => {}
+        Mode::DiffErased => return run_case_diff_erased(def, sc),
+        Mode::DiffRef => return run_case_diff_ref(def, sc),
+    }
     let out = sim::run_sim(sc, RunOpts { log_polls: def.log_polls });
     let v = View::new(sc, &out.evs);
     let mut violations = (def.monitor)(&v);
@@ -113,6 +180,73 @@ pub fn run_case(def: &PropDef, sc: &Scenario) -> CaseResult {
     }
     let mut labels = vec![];
     (def.labels)(&v, &mut labels);
+    labels.sort();
+    labels.dedup();
+    let nontrivial = labels.iter().any(|l| def.nontrivial.contains(l));
+    let summary = summary(&v);
+    drop(v);
+    CaseResult { violations, labels, nontrivial, summary, evs: out.evs }
+}
+
+fn run_case_diff_erased(def: &PropDef, sc: &Scenario) -> CaseResult {
+    use crate::monitors2::{canonical, first_diff};
+    let mut d = sc.clone();
+    d.routing = crate::scenario::Routing::Direct;
+    let mut e = sc.clone();
+    e.routing = crate::scenario::Routing::Erased((sc.hash64() & 0xffff) as u32);
+    let od = sim::run_sim(&d, RunOpts::default());
+    let oe = sim::run_sim(&e, RunOpts::default());
+    let vd = View::new(&d, &od.evs);
+    let ve = View::new(&e, &oe.evs);
+    let cd = canonical(&vd, true);
+    let ce = canonical(&ve, true);
+    let mut violations = vec![];
+    if let Some((i, x, y)) = first_diff(&cd, &ce) {
+        violations.push(crate::view::viol(def.id, "erased-run-differs", format!("canonical traces diverge at line {i}: direct `{x}` vs erased `{y}`")));
+    }
+    for (c, msg) in ve.client_panics.iter().chain(vd.client_panics.iter()) {
+        violations.push(crate::view::viol(def.id, "client-task-panicked", format!("client {c} panicked: {msg}")));
+    }
+    for (_, p, what) in &ve.anomalies {
+        if *p == "C11" {
+            violations.push(crate::view::viol(def.id, "erased-identity-mismatch", what.clone()));
+        }
+    }
+    let mut labels = vec![];
+    (def.labels)(&ve, &mut labels);
+    labels.sort();
+    labels.dedup();
+    let nontrivial = labels.iter().any(|l| def.nontrivial.contains(l));
+    let summary = summary(&ve);
+    drop(vd);
+    drop(ve);
+    CaseResult { violations, labels, nontrivial, summary, evs: oe.evs }
+}
+
+fn run_case_diff_ref(def: &PropDef, sc: &Scenario) -> CaseResult {
+    use crate::monitors2::{canonical, first_diff};
+    let out = sim::run_sim(sc, RunOpts::default());
+    let v = View::new(sc, &out.evs);
+    let mine = canonical(&v, false);
+    let mut violations = vec![];
+    let mut labels = vec![];
+    (def.labels)(&v, &mut labels);
+    match ref_canon(sc) {
+        None => violations.push(crate::view::viol(def.id, "reference-build-unavailable", "the default-feature reference process did not answer".into())),
+        Some((cycle, theirs)) => {
+            if cycle {
+                // precondition of the property: programs with an ask cycle are out of scope
+                labels.clear();
+                labels.push("excluded_ask_cycle");
+            } else if let Some((i, x, y)) = first_diff(&theirs, &mine) {
+                violations.push(crate::view::viol(
+                    def.id,
+                    "feature-build-differs",
+                    format!("features [{}]: canonical trace diverges from the default-feature trace at line {i}: default `{x}` vs this build `{y}`", crate::FEATURES),
+                ));
+            }
+        }
+    }
     labels.sort();
     labels.dedup();
     let nontrivial = labels.iter().any(|l| def.nontrivial.contains(l));
